@@ -95,6 +95,11 @@ Conc(s) ==
     [] s = "vb"   -> <<BS,"v","e","r","b","|","a","%","|">>          \* \verb|a%|
     [] s = "vrb"  -> <<BS,"b","e","g","i","n","{","v","e","r","b","a","t","i","m","}",NL,"a","%",NL,BS,"e","n","d","{","v","e","r","b","a","t","i","m","}">>
     [] s = "vrb2" -> <<BS,"b","e","g","i","n"," ","{","v","e","r","b","a","t","i","m","}","a","%",BS,"e","n","d","{","v","e","r","b","a","t","i","m","}">>
+    \* \LTalter{first}{second}: only the second argument is typeset; files read by \LTinput (created by the harness)
+    [] s = "alt" -> <<BS,"L","T","a","l","t","e","r","{">>
+    [] s = "acb" -> <<"}","{">>
+    [] s = "ltE" -> <<BS,"L","T","i","n","p","u","t","{","/","t","m","p","/","y","v","f","i","l","e","s","/","e",".","t","e","x","}">>   \* an empty file
+    [] s = "ltD" -> <<BS,"L","T","i","n","p","u","t","{","/","t","m","p","/","y","v","f","i","l","e","s","/","d",".","t","e","x","}">>   \* contains \newcommand{\ma}{mn}
     \* languages (C12)
     [] s = "babD" -> <<BS,"u","s","e","p","a","c","k","a","g","e","[","e","n","g","l","i","s","h",",","g","e","r","m","a","n","]","{","b","a","b","e","l","}">>
     [] s = "selD" -> <<BS,"s","e","l","e","c","t","l","a","n","g","u","a","g","e","{","g","e","r","m","a","n","}">>
@@ -170,7 +175,7 @@ ReplChar(s) ==
 ReplSyms == {"tie","nd","md","lq","rq","thin","pct","amp","dol","hsh","usc","lbr","rbr"}
 
 OpenKind(s) ==     \* symbols that open a braced argument / group
-  CASE s = "xo" -> "xo" [] s = "ob" -> "grp" [] s = "add" -> "arg" [] s = "fbx" -> "arg" [] s = "tc" -> "arg"
+  CASE s = "alt" -> "alt" [] s = "xo" -> "xo" [] s = "ob" -> "grp" [] s = "add" -> "arg" [] s = "fbx" -> "arg" [] s = "tc" -> "arg"
     [] s = "fn" -> "fn" [] s = "cap" -> "fn" [] s = "sec" -> "sec" [] s = "sub" -> "sec"
     [] s \in {"uB","uC","uD","uE","uF","uG"} -> "marg" [] s = "uCo" -> "mopt" [] s = "cto" -> "copt"
 LangSel == {"babD", "selD", "selE", "selF"}
@@ -181,7 +186,7 @@ FaultSyms == {"Fim","FimE","Fdm","FdmE","FeqE","FargE","FoptE","FvbE","FveE","Fs
 EofFaults == {"FimE","FdmE","FeqE","FargE","FoptE","FvbE","FveE"}
 \* offset of the problem relative to the start of the symbol
 FaultOff(s) == CASE s = "FargE" -> 13 [] s = "FoptE" -> 5 [] OTHER -> 0
-OpenSyms == {"xo","ob","add","fbx","tc","fn","cap","sec","sub","uB","uC","uCo","uD","uE","uF","uG","cto"}
+OpenSyms == {"alt", "xo","ob","add","fbx","tc","fn","cap","sec","sub","uB","uC","uCo","uD","uE","uF","uG","cto"}
 MathOpen == {"mo", "mo2"}
 DispOpen == {"ba", "bq", "bd", "bdd"}
 MathBody == {"my","mw","mpl","meq","mal","mfr","msb","msp","mti","mdt","mcm","mob","mcb"}
@@ -209,7 +214,7 @@ EnvOf(s) == CASE s \in {"bi","ei"} -> "itemize" [] s \in {"be","ee"} -> "enumera
               [] s \in {"bu","eu"} -> "unk" [] s \in {"bl","el"} -> "lstlisting" [] s \in {"bm","em"} -> "minipage"
 
 AllSyms == Visible \cup ReplSyms \cup OpenSyms \cup BeginSyms \cup EndSyms \cup
-   {"sp","nl","tab","cm","lb","ix","uk","uk2","cb","skp","par","im","imp","ref","cite","skb","ske","q","fnq","it","vb","vrb","vrb2","ocb","ctc","rbk","up","uA","uBt","cmf","cmu"} \cup DefSyms \cup MathSyms \cup FaultSyms \cup LangSyms
+   {"sp","nl","tab","cm","lb","ix","uk","uk2","cb","skp","par","im","imp","ref","cite","skb","ske","q","fnq","it","vb","vrb","vrb2","ocb","ctc","rbk","up","uA","uBt","cmf","cmu","acb","ltE","ltD"} \cup DefSyms \cup MathSyms \cup FaultSyms \cup LangSyms
 
 (***************************************************************************)
 (* Reference state                                                         *)
@@ -290,6 +295,11 @@ AllowedCtx(st, s) ==
   /\ (st.mode = "extr" /\ s \in {"fn", "xo"}) => ~InKind(st, "arg") /\ ~InKind(st, "sec") /\ ~InKind(st, "hid")
   /\ (st.mode = "extr" /\ InKind(st, "fn")) => s \in Visible \cup {"sp","nl","ob","cb","uk","cm","im","imp","cmf","tie","nd"}
   /\ s = "xo" => ~InKind(st, "fn") /\ ~InKind(st, "sec")
+  /\ s = "acb" => st.ctx # <<>> /\ Top(st).k = "alt1"
+  /\ s = "alt" => ~InKind(st, "sec") /\ ~InKind(st, "fn") /\ ~InKind(st, "arg") /\ ~InKind(st, "alt1") /\ ~InKind(st, "hid")
+  /\ (st.ctx # <<>> /\ Top(st).k = "alt1") => s \in Visible \cup {"sp", "acb"}
+  /\ s \in {"ltE", "ltD"} => st.ctx = <<>>
+  /\ s = "ltD" => st.defs["ma"] = "none"
   /\ s = "ocb" => st.ctx # <<>> /\ Top(st).k = "mopt"
   /\ s = "ctc" => st.ctx # <<>> /\ Top(st).k = "copt"
   /\ s = "rbk" => Len(st.ctx) >= 2 /\ Top(st).k = "grp" /\ st.ctx[Len(st.ctx)-1].k \in {"copt", "mopt"}
@@ -433,6 +443,16 @@ Step(st, s) ==
          IF st.defs["mb"] = "none" THEN NoteText(AddUnk(Emit(s1, <<Lay("cw"), It("ws","",0,0,0), It("c", "b", p1, p1, 0)>>), <<BS,"m","b">>), "b")
          ELSE NoteText(Emit(Feat(Feat(s1, "umacro"), "single-token-arg"),
                    <<Lay("x")>> \o ExpandBody(st.defs, st.defs["mb"], << <<It("c", "b", p1, p1, 0)>> >>, p0+1, p1, 3) \o <<Lay("x")>>), "n")
+    [] s = "acb" ->
+         \* the first argument of \LTalter ends (it is the one an extraction list reports), the second begins
+         LET fr == Top(st) IN
+         IF st.mode = "extr" THEN
+            LET nf == Len(st.flows) + 1 IN
+            [s1 EXCEPT !.spans[fr.flow] = <<fr.start+1, p1>>, !.flows = Append(@, <<>>), !.spans = Append(@, <<p0+1, 0>>), !.drop = @ \cup {nf},
+                       !.ctx[Len(st.ctx)] = Frame("hid", nf, fr.start)]
+         ELSE [s1 EXCEPT !.ctx[Len(st.ctx)] = Frame("arg", fr.mark, fr.start)]
+    [] s = "ltE" -> Emit(s1, <<Lay("v")>>)
+    [] s = "ltD" -> [Emit(s1, <<Lay("v")>>) EXCEPT !.defs["ma"] = "dA"]
     [] s = "ocb" ->
          \* the optional argument of \mc ends, its mandatory argument begins
          LET fr == Top(st)
@@ -453,7 +473,12 @@ Step(st, s) ==
              \* extraction mode: \footnote and \xfoo are listed; other known macros with arguments are skipped with their arguments
              k == IF k0 = "xo" THEN (IF st.mode = "extr" THEN "fn" ELSE "grp")
                   ELSE IF st.mode = "extr" /\ (s = "cap" \/ k0 \in {"arg", "sec"}) THEN "hid" ELSE k0 IN
-         IF s = "xo" /\ st.mode # "extr" THEN
+         IF s = "alt" THEN
+            LET nf == Len(st.flows) + 1 IN
+            [Emit(s1, <<Lay("v")>>) EXCEPT !.flows = Append(@, <<>>), !.spans = Append(@, <<p0+1, 0>>),
+                       !.drop = IF st.mode = "extr" THEN @ ELSE @ \cup {nf},
+                       !.ctx = Append(@, [Frame("alt1", nf, p0) EXCEPT !.mark = CurFlow(st)])]
+         ELSE IF s = "xo" /\ st.mode # "extr" THEN
             [AddUnk(Emit(s1, <<Lay("v")>>), <<BS,"x","f","o","o">>) EXCEPT !.ctx = Append(@, Frame("grp", CurFlow(st), p0))]
          ELSE IF k = "hid" THEN
             LET nf == Len(st.flows) + 1 IN
